@@ -1502,7 +1502,30 @@ func foldLeft(op func(value, value) value, args []value) value {
 	return x
 }
 
+func symMinMax(x, y value, isMax bool) value {
+	var k types.BasicKind
+	if xi, ok := x.(symI); ok {
+		k = xi.k
+	} else if yi, ok := y.(symI); ok {
+		k = yi.k
+	} else {
+		panic(unsupported("builtin min/max on symbolic non-integer"))
+	}
+	a, b := toI(x, k), toI(y, k)
+	cmp := "bvslt"
+	if !kindSigned(k) {
+		cmp = "bvult"
+	}
+	if isMax {
+		return symI{"(ite (" + cmp + " " + a + " " + b + ") " + b + " " + a + ")", k}
+	}
+	return symI{"(ite (" + cmp + " " + b + " " + a + ") " + b + " " + a + ")", k}
+}
+
 func min(x, y value) value {
+	if isSym(x) || isSym(y) {
+		return symMinMax(x, y, false)
+	}
 	switch x := x.(type) {
 	case float32:
 		return fmin(x, y.(float32))
@@ -1518,6 +1541,9 @@ func min(x, y value) value {
 }
 
 func max(x, y value) value {
+	if isSym(x) || isSym(y) {
+		return symMinMax(x, y, true)
+	}
 	switch x := x.(type) {
 	case float32:
 		return fmax(x, y.(float32))
